@@ -268,5 +268,8 @@ func runC18(c *Ctx) {
 	for _, fn := range bufferFuncs(c) {
 		R.Analysed(fname(fn))
 	}
+	// what a handler was given (a portal's parameter and format slices, a statement's lists) is not rewritten by a
+	// later message: the objects holding them are written only while they are constructed
+	c.constructOnly("C18.R4", "slices handed to handlers through a portal / statement are never rewritten by a later message", "the backing array of values a handler may still hold is overwritten by the next Bind / Parse")
 	R.Check(true, "C18.R3", "wire-reads-only", "-", "package wire only reads the message window", sprintf("%d accesses in package wire, none is a store", nLoads), "")
 }
